@@ -13,14 +13,16 @@ def run(ck):
         rule="cases = triples of replicas (OrSWotSet<2>) of one history of <= 3 (4) distinct-stamp operations over 3 keys and 2 origins, "
              "each replica applying a subset in forward or reverse order through alternating sources: every triple of subsets for "
              "histories of <= 2 operations and a rotating sample beyond, once within one forgiveness period and once stretched "
-             "beyond it; random larger triples. For each triple the merges a.b, b.a, (a.b).c, a.(b.c), a.a and (a.b).b are "
-             "computed and their observable state compared with the model. Oracle on the implementation (within the period): "
+             "beyond it; triples of GAP-FREE PREFIX replicas (premise B: every origin's operations in stamp order up to a cut, "
+             "all cut combinations of two origins, three interleavings, alternating sources, repeated deliveries) of histories "
+             "stretched over 2..40 periods; random larger triples of each kind. For each triple the merges a.b, b.a, (a.b).c, a.(b.c), a.a and (a.b).b are "
+             "computed and their observable state compared with the model. Oracle on the implementation (whenever one of the two premises holds): "
              "commutative, associative, idempotent, re-merge changes nothing, every key's lookup agrees on replicas that merged "
              "each other through a third, and the merged live ids are the per-key greatest-stamp operations. Outside the premises "
              "only model = implementation is compared. non-trivial = distinct triples whose first merge holds live entries and tombstones",
         assumptions=[
-            "premise (A) of the property only: all stamps of the history within one forgiveness period (tick >= 1); premise (B) "
-            "(gap-free prefixes over longer spans) is not proved - theorem C03_merge_laws_partial - and is exercised only by the "
-            "model-vs-implementation comparison on the stretched universe",
+            "premise (A): all stamps of the history within one forgiveness period (tick >= 1); premise (B): every replica has applied a "
+            "gap-free prefix of every origin's operations (any span) - both proved (C03_merge_laws_within_one_period, "
+            "C03_merge_laws_gap_free_prefixes)",
             "replicas have the same number of sources; stamps are valid packed HLC timestamps",
         ])
